@@ -16,18 +16,18 @@ theorem run_inv (D : Nat) (es : List Ev) (w : W) (h : Inv D w) (hd : ∀ e ∈ e
     simp only [run]
     exact ih _ (step_inv D w e h (hd e (by simp))) (fun e' he' => hd e' (by simp [he']))
 
-theorem doLookup_minI (w : W) (ok : Bool) (d : Nat) : (doLookup w ok d).minI = w.minI := by
+theorem doLookup_minI (w : W) (ok : Bool) (d dur : Nat) : (doLookup w ok d dur).minI = w.minI := by
   unfold doLookup; cases ok <;> simp <;> split <;> rfl
 
-theorem doLookup_lookups (w : W) (ok : Bool) (d : Nat) :
-    (doLookup w ok d).lookups = (w.now, ok) :: w.lookups := by
+theorem doLookup_lookups (w : W) (ok : Bool) (d dur : Nat) :
+    (doLookup w ok d dur).lookups = (w.now, ok) :: w.lookups := by
   unfold doLookup; cases ok <;> simp <;> split <;> rfl
 
 theorem step_minI (w : W) (e : Ev) : (step w e).minI = w.minI := by
   cases e with
-  | build ok d => simp only [step]; split <;> first | rfl | rw [doLookup_minI]
+  | build ok d dur => simp only [step]; split <;> first | rfl | rw [doLookup_minI]
   | resolveNow => simp only [step]; split <;> rfl
-  | tick to ok d =>
+  | tick to ok d dur =>
     simp only [step]; split
     · split
       · rfl
@@ -42,27 +42,29 @@ theorem run_minI (es : List Ev) (w : W) : (run w es).minI = w.minI := by
   | nil => rfl
   | cons x xs ih => simp only [run]; rw [ih, step_minI]
 
-/-- A step that performs a lookup at time `t2` directly after a SUCCESSFUL lookup at `t1` satisfies
-    `t1 + MinResolutionInterval ≤ t2`; directly after a FAILED one, `t1 + D ≤ t2` where D is any lower
-    bound of the backoff delays the code drew. For every reachable state. -/
+/-- A step that STARTS a lookup at time `t2` directly after a SUCCESSFUL lookup (started at `t1`, returned at
+    `lastDone ≥ t1`) satisfies `lastDone + MinResolutionInterval ≤ t2` — the interval is counted from the moment the
+    previous lookup RETURNED, however long it took; directly after a FAILED one, `lastDone + D ≤ t2` where D is any
+    lower bound of the backoff delays the code drew. For every reachable state. -/
 theorem lookup_spacing (D m : Nat) (es : List Ev) (e : Ev) (hd : ∀ x ∈ es, evDelayOk D x)
     (t1 t2 : Nat) (b1 b2 : Bool) (r : List (Nat × Bool))
     (hprev : (run (W.init m) es).lookups = (t1, b1) :: r)
     (hnew : (step (run (W.init m) es) e).lookups = (t2, b2) :: (t1, b1) :: r) :
-    (b1 = true → t1 + m ≤ t2) ∧ (b1 = false → t1 + D ≤ t2) := by
+    (b1 = true → (run (W.init m) es).lastDone + m ≤ t2 ∧ t1 + m ≤ t2) ∧
+    (b1 = false → (run (W.init m) es).lastDone + D ≤ t2 ∧ t1 + D ≤ t2) := by
   have i := run_inv D es (W.init m) (inv_init D m) hd
   have hm : (run (W.init m) es).minI = m := run_minI es (W.init m)
   generalize run (W.init m) es = w at *
-  obtain ⟨_, _, _, _, _, h5, _, h7, h8, h9⟩ := i
+  obtain ⟨_, _, _, _, _, h5, _, h7, h8, h9, h10, h11, h12⟩ := i
   cases e with
-  | build ok d =>
+  | build ok d dur =>
     simp only [step] at hnew; split at hnew
     · rename_i hmode; have := (h5 hmode).1; simp [this] at hprev
     all_goals (rw [hprev] at hnew; simp at hnew)
   | resolveNow =>
     simp only [step] at hnew; split at hnew <;> (rw [hprev] at hnew; simp at hnew)
   | close => simp only [step] at hnew; rw [hprev] at hnew; simp at hnew
-  | tick to ok d =>
+  | tick to ok d dur =>
     simp only [step] at hnew
     split at hnew
     · rename_i due hmode
@@ -76,9 +78,13 @@ theorem lookup_spacing (D m : Nat) (es : List Ev) (e : Ev) (hd : ∀ x ∈ es, e
             omega
           constructor
           · intro hb; subst hb
-            have := h7 due t1 hmode (by rw [hprev]; rfl); omega
+            have a := h7 due t1 hmode (by rw [hprev]; rfl)
+            have b := h10 due t1 hmode (by rw [hprev]; rfl)
+            constructor <;> omega
           · intro hb; subst hb
-            have := h8 due t1 hmode (by rw [hprev]; rfl); omega
+            have a := h8 due t1 hmode (by rw [hprev]; rfl)
+            have b := h11 due t1 hmode (by rw [hprev]; rfl)
+            constructor <;> omega
     · split at hnew <;> (rw [hprev] at hnew; simp at hnew)
 
 /-- Every successful lookup that was followed by another lookup was paid for by a distinct
@@ -104,8 +110,8 @@ theorem stops_when_closed (w : W) (hc : w.mode = .closed) (es : List Ev) :
     exact ⟨this.1.trans hs.1, this.2⟩
 
 /-- The backoff index counts consecutive failures and resets on success. -/
-theorem backoff_index (w : W) (ok : Bool) (d : Nat) :
-    (doLookup w ok d).idx = if ok then 1 else w.idx + 1 := by
+theorem backoff_index (w : W) (ok : Bool) (d dur : Nat) :
+    (doLookup w ok d dur).idx = if ok then 1 else w.idx + 1 := by
   unfold doLookup; cases ok <;> simp <;> split <;> rfl
 
 /-! ### target parsing -/
@@ -170,7 +176,10 @@ theorem format_ip (a : List UInt8) :
 example : (parseTarget false [91, 58, 58, 49, 93, 58, 56, 48] [52, 52, 51]).toOption = some ([58, 58, 49], [56, 48]) := by decide
 example : (parseTarget false [58, 56, 48] [52, 52, 51]).toOption = some (localhost, [56, 48]) := by decide
 example : (parseTarget false [97, 58, 98, 58, 99] [52, 52, 51]).toOption = none := by decide
-example : (run (W.init 30) [.build true 0, .resolveNow, .tick 10 true 0, .tick 30 false 7, .tick 37 true 0]).lookups
+example : (run (W.init 30) [.build true 0 0, .resolveNow, .tick 10 true 0 0, .tick 30 false 7 0, .tick 37 true 0 0]).lookups
     = [(37, true), (30, false), (0, true)] := by decide
+-- a lookup that takes 5: the next one waits MinResolutionInterval from its RETURN (35), not from its start
+example : (run (W.init 30) [.build true 0 5, .resolveNow, .tick 34 true 0 0, .tick 35 true 0 0]).lookups
+    = [(35, true), (0, true)] := by decide
 
 end GrpcProofs.C56
